@@ -329,3 +329,13 @@ Lemma cqn_batch_shape_lemma coin eps rows : length (cqn_get_action coin eps rows
 Proof. apply map_length. Qed.
 Lemma greedy_batch_shape_lemma rows : length (greedy_rows rows) = length rows.
 Proof. apply map_length. Qed.
+
+(* packaged statements used by props/C14.v *)
+Lemma greedy_legal_and_best_lemma (q : list Q) (legal : list bool) (k : nat) :
+  length q = length legal -> nth_error legal k = Some true ->
+  legal_best_first q legal (dqn_policy q legal) /\ legal_best_first q legal (ma_argmax q legal).
+Proof. intros H1 H2. split; exact (masked_argmax_legal_best q legal k H1 H2). Qed.
+
+Lemma batch_shape_lemma coin eps crow grows :
+  length (cqn_get_action coin eps crow) = length crow /\ length (greedy_rows grows) = length grows.
+Proof. split; [apply cqn_batch_shape_lemma | apply greedy_batch_shape_lemma]. Qed.
